@@ -16,6 +16,11 @@ try:
     from specs.misc import *   # noqa
 except ImportError:
     pass
+try:
+    from specs.rfc8613 import *   # noqa
+    from specs.rfc7641 import *   # noqa
+except ImportError:
+    pass
 
 
 def implies(a, b):
